@@ -14,7 +14,8 @@ What is mirrored, function by function:
                                Python also accepts `1_0`, `inf`, `nan`, `infinity` and non-ASCII digits: NOT modelled.
                                A float is kept as the exact decimal (mantissa, exponent) = m·10^e.
 * `line_to_sect_line`       → `lineToSectLine` (first '.', last ':', `RE_LINE_FIELD_0/1` as explicit scanners with the
-                               regex engine's backtracking order).
+                               regex engine's backtracking order); mnemonic and unit are kept as stripped text, only
+                               the value and the description are typed by `string_to_value`.
 * `LASSection`              → `Cur.sect`, `finaliseSect` (rules of the 'V' section, duplicate section types).
 * `LASSectionArray`         → `ArrSt`, `arrAddLine` (unwrapped, and the `_unwrap_buffer` automaton), `finaliseArr`
                                (column count, `float()` or the null value taken from `~W NULL`, duplicate X values).
@@ -160,6 +161,11 @@ def optToValue : Option Str → Value
   | none => .text []
   | some s => stringToValue s
 
+/-- the units group kept as a stripped `str` (`''` when the group is `None`) -/
+def optStrip : Option Str → Str
+  | none => []
+  | some s => strip s
+
 /-! ### header lines -/
 
 structure SectLine where
@@ -233,7 +239,7 @@ def lineToSectLine (line : Str) : Except Err SectLine :=
       | none => .error .decompose
       | some g0 =>
         let (g1, g2) := field1 mid
-        .ok ⟨stringToValue g0, optToValue g1, optToValue g2, stringToValue desc⟩
+        .ok ⟨.text (strip g0), .text (optStrip g1), optToValue g2, stringToValue desc⟩
 
 /-! ### sections -/
 
